@@ -4,6 +4,9 @@ package main
 // Everything in this file is part of every claim and is listed in the evidence.
 
 import (
+	"crypto/sha256"
+	"encoding/binary"
+	"strconv"
 	"fmt"
 	"go/types"
 	"math"
@@ -242,6 +245,7 @@ func (eng *Engine) buildIntercepts() {
 		repoPkg + "/services/termincommittee.ToCommitteeMembersStr",
 		repoPkg + "/services/logger.ConvertMessagesToMemberMessagesLogs",
 		repoPkg + "/services/leanhelixterm.printShortBlockProofBytes",
+		repoPkg + "/services/logger.nowISO",
 		repoPkg + "/services/leanhelixterm.commitMessagesToCommitteeMemberIdsStr",
 		"(*" + repoPkg + "/state.HeightView).String",
 	} {
@@ -464,8 +468,25 @@ func (eng *Engine) buildIntercepts() {
 
 	// ---------------- random seed: injective summaries (assumption: SHA-256 collision freedom) ----------------
 	ic[repoPkg+"/services/randomseed.CalculateRandomSeed"] = func(ex *Exec, caller *frame, fn *ssa.Function, args []Value) Value {
-		// seed = first 8 bytes (little endian) of the signature, zero padded; length is mixed in via the top byte xor.
+		// concrete signature bytes: the real function (SHA-256) is computed exactly
 		bs := bytesOf(ex, args[0])
+		allc := true
+		for _, b := range bs {
+			if !b.IsConst() {
+				allc = false
+			}
+		}
+		if allc {
+			raw := make([]byte, len(bs))
+			for i, b := range bs {
+				raw[i] = byte(b.val)
+			}
+			hash := sha256.Sum256(raw)
+			array := []byte{hash[0], hash[3], hash[7], hash[11], hash[15], hash[19], hash[23], hash[27]}
+			return ex.tt.BV(64, binary.LittleEndian.Uint64(array))
+		}
+		// symbolic signature: injective summary, seed = the (up to 8) signature bytes, little endian
+		ex.seedSummary = true
 		parts := make([]*Term, 8)
 		for i := 0; i < 8; i++ {
 			if i < len(bs) {
@@ -481,6 +502,15 @@ func (eng *Engine) buildIntercepts() {
 	}
 	ic[repoPkg+"/services/randomseed.RandomSeedToBytes"] = func(ex *Exec, caller *frame, fn *ssa.Function, args []Value) Value {
 		v := args[0].(*Term)
+		if v.IsConst() {
+			str := strconv.FormatUint(v.val, 10)
+			data := make([]Value, len(str))
+			for i := 0; i < len(str); i++ {
+				data[i] = ex.tt.BV(8, uint64(str[i]))
+			}
+			return SliceV{data: data}
+		}
+		ex.seedSummary = true
 		data := make([]Value, 8)
 		for i := 0; i < 8; i++ {
 			data[i] = ex.tt.Extract(v, 8*i+7, 8*i)
